@@ -363,6 +363,10 @@ class TCPPacketGenerator(Device, OutMixIn):
             self.cwnd_avaialbe.put(True)
 
     def resend_packet(self, seqno: int):
+        if seqno not in self.sent_packets:
+            # nothing in flight under this number: it has been acknowledged
+            # already or was never sent (duplicate ACKs at the end of data)
+            return
         resent_pkt = self.sent_packets[seqno]
         resent_pkt.time = self.env.now
         self.dprint(
